@@ -10,8 +10,12 @@ INS = {"jmp": (b"\xe9\0\0\0\0", 1, 0), "call": (b"\xe8\0\0\0\0", 1, 0), "jcc": (
 INS_A64 = {"jmp": (b"\x00\x00\x00\x14", 0, 0), "call": (b"\x00\x00\x00\x94", 0, 0), "jcc": (b"\x01\x00\x00\x54", 0, 0),
            "lea": (b"\x00\x00\x00\x90", 0, 1), "lo12": (b"\x00\x00\x00\x91", 0, 1), "nop": (b"\x1f\x20\x03\xd5", None, None),
            "ret": (b"\xc0\x03\x5f\xd6", None, None)}
-TABLES = {"x64": INS, "arm64": INS_A64}
-ISA_NUM = {"x64": 0, "arm64": 2}
+# MIPS32 (big-endian): j / jal / bne with their delay-slot nop, lui %hi / addiu %lo; jr $ra
+INS_MIPS = {"jmp": (bytes.fromhex("0800000000000000"), 0, 0), "call": (bytes.fromhex("0c00000000000000"), 0, 0), "jcc": (bytes.fromhex("1509000000000000"), 0, 0),
+            "lea": (bytes.fromhex("3c080000"), 0, 1), "lo12": (bytes.fromhex("25080000"), 0, 1), "nop": (bytes.fromhex("00000000"), None, None),
+            "ret": (bytes.fromhex("03e0000800000000"), None, None)}
+TABLES = {"x64": INS, "arm64": INS_A64, "mips32": INS_MIPS}
+ISA_NUM = {"x64": 0, "arm64": 2, "mips32": 3}
 CALLS = ("call", "icall")
 FALLS = ("call", "jcc", "lea", "lo12", "nop", "icall")       # kinds after which execution continues with the next block
 
@@ -44,7 +48,7 @@ def gen(rnd):
     for s in range(nsym):
         k = rnd.random()
         c["syms"].append(("code", rnd.randrange(nblk)) if k < 0.5 else ("data", rnd.randrange(2)) if k < 0.7 else ("proxy", rnd.randrange(2)) if k < 0.92 else ("none", 0))
-    c["isa"] = "arm64" if rnd.random() < 0.3 else "x64"
+    c["isa"] = rnd.choice(["x64"] * 5 + ["arm64"] * 3 + ["mips32"] * 2)
     tab = TABLES[c["isa"]]
 
     def instr(kinds):
@@ -57,12 +61,14 @@ def gen(rnd):
             elif c["pie"] and tab[kind][2] == 1:
                 attrs = ["GOT"] if kind == "lea" else ["LO12", "GOT"]
         elif sym is not None and kind == "lo12" and rnd.random() < 0.8:
-            attrs = ["LO12"]
+            attrs = ["LO12"] if c["isa"] == "arm64" else ["LO"]
+        elif sym is not None and kind == "lea" and c["isa"] == "mips32" and rnd.random() < 0.8:
+            attrs = ["HI"]
         elif sym is not None and rnd.random() < 0.1:
             attrs = [rnd.choice(["PLT", "GOT"])]
         return (kind, sym, rnd.choice([0, 0, 4]), attrs)
     finals = ["jmp", "call", "jcc", "lea", "nop", "ret", "jmp", "call"] + (["icall", "ijmp"] if c["isa"] == "x64" else ["lo12"])
-    inner = ["nop", "lea"] + (["lo12"] if c["isa"] == "arm64" else [])
+    inner = ["nop", "lea"] + (["lo12"] if c["isa"] != "x64" else [])
     c["blocks"] = []
     for b in range(nblk):
         c["blocks"].append([instr(inner) for _ in range(rnd.choice([0, 0, 1, 2]))] + [instr(finals)])
@@ -142,7 +148,7 @@ def build(c):
     from gtirb_rewriting import _auxdata
     A = gtirb.SymbolicExpression.Attribute
     ir = gtirb.IR()
-    m = gtirb.Module(name="m", isa=gtirb.Module.ISA.ARM64 if c.get("isa") == "arm64" else gtirb.Module.ISA.X64, file_format=gtirb.Module.FileFormat.ELF, byte_order=gtirb.Module.ByteOrder.Little, ir=ir)
+    m = gtirb.Module(name="m", isa={"arm64": gtirb.Module.ISA.ARM64, "mips32": gtirb.Module.ISA.MIPS32}.get(c.get("isa"), gtirb.Module.ISA.X64), file_format=gtirb.Module.FileFormat.ELF, byte_order=gtirb.Module.ByteOrder.Big if c.get("isa") == "mips32" else gtirb.Module.ByteOrder.Little, ir=ir)
     m.aux_data["binaryType"] = gtirb.AuxData(["DYN"] if c["pie"] else ["EXEC"], "sequence<string>")
     text = gtirb.Section(name=".text", module=m)
     data = gtirb.Section(name=".data", module=m)
@@ -534,7 +540,7 @@ class C18(Prop):
                 errs[o] = errs.get(o, 0) + 1
         return dict(evaluations=len(lines), distinct_nontrivial=len(set(lines)), samples=[{"case": l[:160], "result": o[:200]} for l, o, _ in runs[:4]],
                     disagreements=dis[:20], dist={"cases": len(cases), "errors": errs, "request_sequences": len(rq), "requests_refused": refused,
-                                                         "arm64_modules": sum(1 for c in cases if c.get("isa") == "arm64")})
+                                                         "arm64_modules": sum(1 for c in cases if c.get("isa") == "arm64"), "mips32_modules": sum(1 for c in cases if c.get("isa") == "mips32")})
 
     def oracle(self, tier, ctx, boosted):
         runs = getattr(self, "_runs", None)
